@@ -172,8 +172,12 @@ class VInt(SV):
 
 class VReal(SV):
     def __init__(self, t):
-        if isinstance(t, (int, float)):
-            t = z3.RealVal(repr(t) if isinstance(t, float) else t)
+        if isinstance(t, float):
+            from fractions import Fraction
+            fr = Fraction(repr(t))          # the decimal value of the literal text (floats are reals here)
+            t = z3.Q(fr.numerator, fr.denominator)
+        elif isinstance(t, int):
+            t = z3.RealVal(t)
         self.t = t
 
     def __repr__(self):
